@@ -823,11 +823,111 @@ func (st *c03store) drawKeys(r *sim.Run, maxN int) []int {
 	return ks
 }
 
+// c03Window: a scripted history around the width thresholds of ONE trie node, at a seeded POSITION of its 32 slots. With
+// the identity hasher the key decides the slot (level 0: key = slot; level 1: key = slot*32 + c, all keys below one
+// root slot). The node is grown to a window of L consecutive slots (wrapping) plus a few extra slots, then the extras
+// are removed one by one (so the node sits at exactly L children, all inside the window - e.g. 16 children in slots
+// 16..31 only), then the window itself is emptied key by key. Every step is an event with the full set of oracles.
+func c03Window(r *sim.Run, st *c03store) {
+	r.Case = "store"
+	st.h = fnHasher{name: "identity", f: func(k int) uint32 { return uint32(k) }}
+	level := r.Choose(2, "windowLevel")
+	st.universe = 40
+	if level == 1 {
+		st.universe = 1024
+	}
+	L := []int{7, 8, 9, 15, 16, 17, 24, 31}[r.Choose(8, "windowLen")]
+	a := r.Choose(32, "windowStart")
+	nExtra := min(32-L, 1+r.Choose(4, "windowExtra"))
+	c := r.Choose(32, "windowSub")
+	key := func(slot int) int {
+		if level == 1 {
+			return slot*32 + c
+		}
+		return slot
+	}
+	isSet := r.Choose(3, "windowSet") == 0
+	r.Fault("slot-window-history")
+	r.MixFingerprintS(fmt.Sprintf("window level %d start %d len %d extra %d set %v", level, a, L, nExtra, isSet))
+	r.Logf("slot-window history: level %d, slots %d..+%d (wrapping), %d extra slot(s), set=%v", level, a, L, nExtra, isSet)
+	v := &c03ver{isSet: isSet, model: map[int]int{}, desc: "empty (slot-window history)"}
+	if isSet {
+		v.s = immutable.Set[int](st.h)
+	} else {
+		v.m = immutable.Map[int, int](st.h)
+	}
+	st.add(v)
+	if !st.check(v, "after construction") {
+		return
+	}
+	var ops []c03op
+	ins := func(k int) {
+		if isSet {
+			ops = append(ops, c03op{kind: soIncl, isSet: true, a: 1, k: k})
+		} else {
+			ops = append(ops, c03op{kind: moUpdated, a: 1, k: k, val: 3000 + k})
+		}
+	}
+	del := func(k int) {
+		if isSet {
+			ops = append(ops, c03op{kind: soExcl, isSet: true, a: 1, k: k})
+		} else {
+			ops = append(ops, c03op{kind: moRemoved, a: 1, ks: []int{k}})
+		}
+	}
+	// grow: window and extras interleaved from a seeded rotation
+	rot := r.Choose(L+nExtra, "windowRot")
+	all := make([]int, 0, L+nExtra)
+	for i := 0; i < L+nExtra; i++ {
+		all = append(all, (a+i)%32) // the first L are the window, the rest the extras
+	}
+	for i := range all {
+		ins(key(all[(i+rot)%len(all)]))
+	}
+	for i := L; i < L+nExtra; i++ {
+		del(key(all[i]))
+	}
+	back := r.Choose(2, "windowBackwards") == 1
+	for i := 0; i < L; i++ {
+		j := i
+		if back {
+			j = L - 1 - i
+		}
+		del(key(all[j]))
+	}
+	r.Go("client0", func(t *sim.Task) {
+		for _, op := range ops {
+			t.Yield("op")
+			if !st.apply(op, 0) {
+				return
+			}
+		}
+	})
+	r.RunToQuiescence()
+	if r.Failed() {
+		return
+	}
+	for _, t := range r.Unfinished() {
+		r.Violate("stuck-task", "task %d:%s not finished", t.ID, t.Name)
+		return
+	}
+	for _, v := range st.pool {
+		if !st.check(v, "final re-check of all live versions") {
+			return
+		}
+	}
+	r.ProbeN("events", st.events)
+}
+
 func execC03(r *sim.Run) {
 	r.Case = "store"
 	st := &c03store{r: r}
 	st.h = c03Hasher(r)
 	st.universe = []int{12, 40, 72, 96}[r.Choose(4, "universe")]
+	if r.Bool(1, 8, "slotWindowHistory") {
+		c03Window(r, st)
+		return
+	}
 	r.MixFingerprintS(st.h.(fnHasher).name)
 	r.Logf("hasher %s, universe %d", st.h.(fnHasher).name, st.universe)
 	// initial versions: at least one map and one set, from seeded constructors
